@@ -680,6 +680,12 @@ Theorem T02c_nested_comps_refuted :
 Proof. exact nested_refuted. Qed.
 Print Assumptions T02c_nested_comps_refuted.
 
+(* f6bcd55: an eager list / set / dict comprehension is never merged into a (lazy) generator expression *)
+Theorem T02c_nested_comps_gen_eager_kept : forall elt dval x ik y idval igens,
+  ik <> CGen -> rw_nested (XComp CGen elt dval [XGen (TName x) (XComp ik (XName y) idval igens) []]) = None.
+Proof. exact nested_gen_eager_kept. Qed.
+Print Assumptions T02c_nested_comps_gen_eager_kept.
+
 End Comp.
 
 
@@ -768,11 +774,17 @@ Theorem T02l_immret_sound : forall W body q,
 Proof. exact rw_immret_sound. Qed.
 Print Assumptions T02l_immret_sound.
 
-(* fixes.replace_with_filter: same outcome, trace and variables except the loop variable (F02-47) *)
+(* fixes.replace_with_filter: same outcome, trace and variables except the loop variable (F02-47); since 295ec41
+   (the template back end indents compound statements) also for loops whose body statement is an if / for
+   (rw_filter_old, the rule before that repair, is the restriction to simple body statements) *)
 Theorem T02l_filter_sound : forall W s s' q, (forall x, blind W x) -> rw_filter s = Some s' ->
   exists x, res_rel x (exec_stmt W s q) (exec_stmt W s' q).
 Proof. exact filter_sound. Qed.
 Print Assumptions T02l_filter_sound.
+
+Theorem T02l_filter_old_sub : forall s s', rw_filter_old s = Some s' -> rw_filter s = Some s'.
+Proof. exact filter_old_sub. Qed.
+Print Assumptions T02l_filter_old_sub.
 
 Theorem T02l_filter_refuted_loop_variable :
   exists s s' q, rw_filter s = Some s' /\ exec_stmt (fun _ => test_world) s q <> exec_stmt (fun _ => test_world) s' q /\
@@ -992,8 +1004,9 @@ Example T02k_delete_unused_example :
 Proof. repeat split; reflexivity. Qed.
 
 
-(* T02k.9  object_oriented.move_staticmethod_static_scope (after repairs 82c842a .. 4757c14), resolution level:
-   a static method x of class k that the rule moves under the new name n IS, in the output, the module-level
+(* T02k.9  object_oriented.move_staticmethod_static_scope (after repairs 82c842a .. 4757c14 and cca2e92: one
+   transaction per method, ms_moved = the part of the plan that processing's scheduler keeps), resolution level:
+   a static method x of class k that a pass moves under the new name n IS, in the output, the module-level
    function n: same parameters, the (redirected) body of x, bound by nothing else (no other function, no stored
    name) -- so a redirected access `C.m(args)` -> `n(args)` reaches the body that `C.m` reached (T02k.10), with
    the same arity test and no first argument.  The whole-run equality of ms_model is NOT proved (correspondence
@@ -1002,12 +1015,18 @@ Theorem T02k_move_static_redirect :
   forall M k x n,
   uniq_cls M = true -> uniq_meths M = true -> nodup_names (map snd (ms_plan M)) = true ->
   In k (classes M) -> c_base k = None -> In x (c_meths k) -> ms_new_name M k x = Some n ->
+  In ((c_name k, m_name x), n) (ms_moved M) ->
   m_kind x = KStatic /\
-  resolve (ms_pass M) SNone None RMod n = TFn (moved_fn (ms_plan M) k x n) /\
-  f_params (moved_fn (ms_plan M) k x n) = m_params x /\
-  f_body (moved_fn (ms_plan M) k x n) = map (ms_act (ms_plan M) (Some (c_name k))) (m_body x).
+  resolve (ms_pass M) SNone None RMod n = TFn (moved_fn (ms_moved M) k x n) /\
+  f_params (moved_fn (ms_moved M) k x n) = m_params x /\
+  f_body (moved_fn (ms_moved M) k x n) = map (ms_act (ms_moved M) (Some (c_name k))) (m_body x).
 Proof. exact move_static_redirect. Qed.
 Print Assumptions T02k_move_static_redirect.
+
+(* what a pass moves is part of the plan; with no access of one planned method inside another, all of it *)
+Theorem T02k_move_static_moved_planned : forall M e, In e (ms_moved M) -> In e (ms_plan M).
+Proof. exact ms_moved_planned. Qed.
+Print Assumptions T02k_move_static_moved_planned.
 
 Theorem T02k_move_static_original :
   forall M k x n nargs,
@@ -1023,7 +1042,16 @@ Example T02k_move_static_example :
                  [ACall (RCls 1) 1 0; ACall (RNew 1) 2 0] in
   ms_new_name M (mkCls 1 None [mkMeth 1 KStatic 0 [AEv 1]; mkMeth 2 KPlain 1 [ACall RSelf 1 0]] []) (mkMeth 1 KStatic 0 [AEv 1])
     = Some (moved_name 1)
+  /\ In ((1, 1)%nat, moved_name 1) (ms_moved M)
   /\ run_module 20 (ms_model M) = run_module 20 M /\ run_module 20 M = ([TEv 1; TEv 1], OOk).
-Proof. repeat split; reflexivity. Qed.
+Proof. repeat split; try reflexivity. left. reflexivity. Qed.
+
+(* a discarded transaction: m3 reads m1 through `self`; only m3 moves, before cca2e92 both did *)
+Example T02k_move_static_schedule_example :
+  let M := mkMod [IClass (mkCls 1 None [mkMeth 3 KStatic 1 [ACall RSelf 1 0]; mkMeth 1 KStatic 0 [AEv 3]] [])] [] []
+                 [ACall (RCls 1) 1 0] in
+  map fst (ms_plan M) = [(1, 3); (1, 1)]%nat /\ map fst (ms_moved M) = [(1, 3)]%nat
+  /\ ms_model M = ms_pass M /\ ms_pass_old M <> ms_pass M.
+Proof. exact move_static_schedule. Qed.
 
 End Cls.
